@@ -270,13 +270,23 @@ def run(props, tier, seed):
             if v is not None:
                 b.check('C05.sortby-condition', v == expect, w, 'pass=%r expected %r' % (v, expect))
         # files
-        for ext in ('parquet', 'csv'):
-            refp = os.path.join(top, 'ref.' + ext)
+        for ext in ('parquet', 'csv', 'csv-dates'):
+            refp = os.path.join(top, 'ref.' + ext.split('-')[0])
             fbase = pd.DataFrame({'a': [1, 2, 3], 'b': [0.5, 1.5, 2.5]})
+            if ext == 'csv-dates':
+                # a reference CSV with string and boolean columns, loaded with the default CSV loader (date columns
+                # are not tried: a CSV carries no types, so they need the caller's own loader arguments)
+                fbase = pd.DataFrame({'a': [1, 2, 3], 's': ['x', 'y z', 'é'], 't': [True, False, True]})
+                ext = 'csv'
             (fbase.to_parquet(refp) if ext == 'parquet' else fbase.to_csv(refp, index=False))
-            for d2, expect in ((fbase.copy(), 'pass'), (fbase.assign(b=[0.5, 9.0, 2.5]), 'fail')):
-                w = {'case': 'file', 'format': ext, 'expect': expect}
-                b.case(('file', ext, expect))
+            if 'b' in fbase:
+                variants = [(fbase.copy(), 'pass'), (fbase.assign(b=[0.5, 9.0, 2.5]), 'fail')]
+            else:
+                variants = [(fbase.copy(), 'pass'), (fbase.assign(s=['x', 'y  z', 'é']), 'fail'),
+                            (fbase.assign(t=[True, True, True]), 'fail')]
+            for d2, expect in variants:
+                w = {'case': 'file', 'format': ext, 'columns': list(fbase), 'expect': expect}
+                b.case(('file', ext, tuple(fbase), expect, repr(d2.iloc[1].tolist())))
                 try:
                     with quiet():
                         rt.assertDataFrameCorrect(d2, refp)
